@@ -17,7 +17,7 @@ def handleDataset (req : Json) : Except String Json := do
   let cols : List String ← decList (← req.getObjVal? "cols")
   let rows ← decRows (← req.getObjVal? "rows")
   let dom ← decDom (← req.getObjVal? "dom")
-  let w : Option (List Rat) ←
+  let w : Option (List ExtQ) ←
     match req.getObjVal? "weights" with
     | .ok Json.null => pure none
     | .ok j => do pure (some (← decList j))
@@ -27,7 +27,7 @@ def handleDataset (req : Json) : Except String Json := do
   match w with
   | some ws => if ws.length ≠ rows.length then throw "raise"
   | none => pure ()
-  let mut D : Dataset Rat := Dataset.ofTable t dom w
+  let mut D : Dataset ExtQ := Dataset.ofTable t dom w
   let projs ← (← req.getObjVal? "projs").getArr?
   for p in projs do
     let as : List Attr ← decList p
